@@ -17,7 +17,7 @@ class H:
 
     def __init__(self, crate, name, what, unwind=None, unwindset=None, flags=None, timeout=900, mem_gb=14,
                  covers=None, tier="quick", functions=None, bounds=None, stubs=None, expect="pass",
-                 playback=True, solver=None, loops=None):
+                 playback=True, solver=None, loops=None, native=None):
         self.crate = crate
         self.name = name  # full path, e.g. c05::direct
         self.what = what
@@ -34,6 +34,7 @@ class H:
         self.expect = expect  # "pass" or "fail" (reachability twin: must come back violated)
         self.playback = playback  # counterexamples replay natively without stubs being semantically needed
         self.solver = solver
+        self.native = native  # optional native replay (model, finding, prop) -> (reproduced, path, note), used when concrete playback cannot reproduce (stub-dependent harnesses)
         # per-loop unwind bounds by pattern: [(regex over "<loop id> <demangled function>", bound)], first match wins;
         # resolved against `cbmc --show-loops` of the harness's goto binary on every run
         self.loops = loops or []
